@@ -1670,6 +1670,9 @@ class Executor:
                 return FnV(lambda ex, *a, **k: m(ex, base, *a, **k), '%s.%s' % (base.name, attr))
             if '__getattr__' in base.methods:
                 return base.methods['__getattr__'](self, base, attr)
+            if getattr(self, '_in_spec', 0):
+                # a clause that selects a field the object on this path does not have does not hold here
+                raise _Raise(ExcV('AttributeError'))
             raise Unsupported('attribute %s of %r' % (attr, base))
         if isinstance(base, dict):
             if attr in base:
